@@ -36,7 +36,7 @@ if [ "$ID" = C14 ] || [ "$ID" = C15 ]; then
   fi
   export VERIF_RACE_BIN="$W/vrace"
 fi
-if [ "$ID" = C13 ]; then
+if [ "$ID" = C13 ] || [ "$ID" = C09 ]; then
   # the exported MakeFuzz wrapper needs a real *testing.T: a go test binary runs it, unit "C13/MakeFuzz-wrapper" compares
   if ! go test $MODFLAG -c -vet=off -tags verif -overlay "$W/overlay.json" -o "$W/fuzzwrap.test" ./harness/fuzzwrap 2>"$W/build.err"; then
     echo "HARNESS-ERROR: wrapper test does not build:"; head -20 "$W/build.err"; exit 2
